@@ -137,3 +137,94 @@ func vRunE2ECancel(c vCase) string {
 	}
 	return fmt.Sprintf("ret=%s retms=%d hstarted=%v hctx=%d", cls, retms, hstarted, atomic.LoadInt32(&hctx))
 }
+
+
+// two notification handlers are running on the far transport; a later Notify is abandoned by its caller (cancel / deadline)
+// while its frame is still being written; nobody cancelled the two running notifications: their contexts must stay live
+func vRunE2ENotify(c vCase) string {
+	a, b, err := vTCPPair()
+	if err != nil {
+		return "setup=" + err.Error()
+	}
+	gc := &vGatedConn{Conn: a}
+	lf := NewSimpleLogFactory(vQuietOutput{}, vQuietOpts{})
+	cx := NewTransport(gc, lf, nil, nil, 1<<20)
+	sx := NewTransport(b, lf, nil, nil, 1<<20)
+	defer cx.Close()
+	defer sx.Close()
+	started := make(chan int, 16)
+	release := make(chan struct{})
+	var cancelled int32
+	var nstarted int32
+	srv := NewServer(sx, nil)
+	_ = srv.Register(Protocol{Name: "p", Methods: map[string]ServeHandlerDescription{
+		"n": {
+			MakeArg: func() interface{} { var v interface{}; return &v },
+			Handler: func(ctx context.Context, arg interface{}) (interface{}, error) {
+				k := int(atomic.AddInt32(&nstarted, 1))
+				started <- k
+				select {
+				case <-ctx.Done():
+					atomic.AddInt32(&cancelled, 1)
+				case <-release:
+				}
+				return nil, nil
+			},
+		}}})
+	srv.Run()
+	cli := NewClient(cx, nil, nil)
+	nrun := 2
+	for i := 0; i < nrun; i++ {
+		if err := cli.Notify(context.Background(), "p.n", []interface{}{i}, 0); err != nil {
+			return "setup=notify-failed"
+		}
+	}
+	for i := 0; i < nrun; i++ {
+		select {
+		case <-started:
+		case <-time.After(2 * time.Second):
+			return "setup=handlers-not-started"
+		}
+	}
+	// shut the gate: the next frame's Write blocks
+	gc.mu.Lock()
+	gc.gate = make(chan struct{})
+	gc.mu.Unlock()
+	before := atomic.LoadInt32(&gc.entered)
+	ctx, cancel := context.WithCancel(context.Background())
+	defer cancel()
+	if c.get("how") == "deadline" {
+		var c2 context.CancelFunc
+		ctx, c2 = context.WithTimeout(ctx, 30*time.Millisecond)
+		defer c2()
+	}
+	ret := make(chan error, 1)
+	go func() { ret <- cli.Notify(ctx, "p.n", []interface{}{99}, 0) }()
+	for i := 0; i < 20000 && atomic.LoadInt32(&gc.entered) == before; i++ {
+		time.Sleep(100 * time.Microsecond)
+	}
+	if c.get("how") != "deadline" {
+		cancel()
+	}
+	rs := "none"
+	select {
+	case e := <-ret:
+		if e == context.Canceled || e == context.DeadlineExceeded {
+			rs = "ctx"
+		} else if e == nil {
+			rs = "ok"
+		} else {
+			rs = "other"
+		}
+	case <-time.After(3 * time.Second):
+	}
+	gc.mu.Lock()
+	close(gc.gate)
+	gc.gate = nil
+	gc.mu.Unlock()
+	// the abandoned notification may still arrive and start a third handler; give cancellations time to travel
+	time.Sleep(250 * time.Millisecond)
+	foreign := atomic.LoadInt32(&cancelled)
+	close(release)
+	return fmt.Sprintf("ret=%s foreign=%d started=%d", rs, foreign, atomic.LoadInt32(&nstarted))
+}
